@@ -33,9 +33,19 @@ def _free(draw):
     co = draw(st.lists(st.sampled_from(["m", "n", "x", "y"]), min_size=1, max_size=3, unique=True))
     names = sorted(set(i1 + o1 + ci + co))
     w = draw(gens.witness_s(names))
-    mk = draw(st.sampled_from([gens.structured_contract_s, gens.wild_contract_s]))
+    mk = draw(st.sampled_from([gens.structured_contract_s, gens.wild_contract_s, gens.coupled_contract_s, gens.coupled_contract_s]))
     c1 = draw(mk(i1, o1, w))
-    c = draw(draw(st.sampled_from([gens.structured_contract_s, gens.wild_contract_s]))(ci, co, w))
+    c = draw(draw(st.sampled_from([gens.structured_contract_s, gens.wild_contract_s, gens.coupled_contract_s]))(ci, co, w))
+    shared = [v for v in o1 if v in co] + [v for v in i1 if v in ci]
+    if len(shared) >= 2 and draw(st.integers(0, 2)) > 0:
+        # a dividend guarantee that mentions several variables shared with the divisor at once
+        k = draw(st.integers(2, len(shared)))
+        cf = {v: draw(gens.coef_s()) for v in shared[:k]}
+        rest = [v for v in ci + co if v not in shared]
+        if rest:
+            cf[draw(st.sampled_from(rest))] = draw(st.sampled_from([1, -1, 2]))
+        if all(v in ci + co for v in cf):
+            c = dict(c, g=c["g"] + [[cf, float(gens.dot(cf, w) + draw(st.sampled_from(gens.SLACKS)))]])
     rel = draw(st.sampled_from(["implies", "implies", "independent"]))
     if rel == "implies":
         extra = [t for t in c1["a"] if set(t[0]) <= set(ci)]
@@ -45,7 +55,7 @@ def _free(draw):
 
 
 def strategy(tier):
-    return st.one_of(_built(), _built(), _free())
+    return st.one_of(_built(), _free(), _free())
 
 
 def run_case(case):
